@@ -1,10 +1,12 @@
 import Qryn.LogQL.Planner
+import Qryn.Prom.Bits
 /-! The statements of the Prometheus remote-read path as `Sel` terms: model of
     reader/promql/transpiler: `TranspileLabelMatchers` (transpiler.go: `InitClickhousePlanner.Process`, `fingerprintsQuery`
     → the LogQL `StreamSelectPlanner`, `processHints`) and `GetLabelMatchersDownsampleRequest`
     (transpilerDownsample.go: `InitDownsamplePlanner`, `StreamSelectCombiner`, `DownsampleHintsPlanner`).
-    The matcher list is the one handed to `NewStreamSelectPlanner` (regular expressions already anchored, on both
-    paths since `fix: PromQL regular-expression matchers are anchored on the down-sampling path too`). Column texts follow the Go format strings; C13 ties FROM / PREWHERE / WHERE / WITH of these terms to the
+    The matcher list is the one `fingerprintsQuery` asks the label index for (regular expressions already anchored, on both
+    paths since `fix: PromQL regular-expression matchers are anchored on the down-sampling path too`; a matcher that accepts
+    the empty value already inverted, its `required` bit clear, since `fix: a PromQL matcher that accepts the empty value …`). Column texts follow the Go format strings; C13 ties FROM / PREWHERE / WHERE / WITH of these terms to the
     real statements (stream `model-prom`), which is what confinement reads. -/
 namespace Qryn.Prom
 open Qryn Qryn.Sql Qryn.LogQL
@@ -37,33 +39,49 @@ def initRaw (c : Ctx) : Sel :=
     (some (and_ [ge (.raw "samples.timestamp_ns") (.int c.fromNs), le (.raw "samples.timestamp_ns") (.int c.toNs), getTypes c]))
     [] none [.orderBy (.raw "fingerprint") .asc, .orderBy (.raw "samples.timestamp_ns") .asc] (limitOf c)
 
+/-- `fingerprintsQuery` over the matchers asked of the index and their `required` bits: with every bit required (and a
+    matcher at all) the shared `StreamSelectPlanner` (`LogQL.streamSelect`, the same term — `fpSel_all_required`),
+    otherwise `optionalLabelsQuery`: the OR only if some bit is required, HAVING against the `int64` of the required bits -/
+def fpSel (c : Ctx) (ms : List Matcher) (req : List Bool) : Sel :=
+  let clauses := ms.map matcherClause
+  let r := Bits.requiredConst req
+  .mk [] false [.raw "fingerprint"] (some (.raw c.ginTable)) [] none
+    (some (and_ ([ge (.raw "date") (.str (Time.formatFromDate c.fromNs)), getTypes c] ++ (if r != 0 then [or_ clauses] else []))))
+    [.raw "fingerprint"]
+    (if clauses.isEmpty then none else some (and_ [eq (.bitSetAnd clauses) (.int r)])) [] none
+
 /-- `query.AddWith(fp_sel)`, `AndWhere(<col> IN fp_sel)` -/
-def withFp (c : Ctx) (ms : List Matcher) (col : String) (main : Sel) : Sel :=
-  (main.with_ [(.named "fp_sel", streamSelect c ms)]).andWhere [.isIn (.raw col) [.withRef (.named "fp_sel")]]
+def withFp (c : Ctx) (ms : List Matcher) (req : List Bool) (col : String) (main : Sel) : Sel :=
+  (main.with_ [(.named "fp_sel", fpSel c ms req)]).andWhere [.isIn (.raw col) [.withRef (.named "fp_sel")]]
 
 /-- the step filter both hint planners add for range functions whose step exceeds the range -/
 def stepFilter (col : String) (step : Int) (cmp : Expr → Expr → Expr) (bound : Int) : Expr :=
   or_ [eq (.raw (col ++ " % " ++ toString step)) (.int 0), cmp (.raw (col ++ " % " ++ toString step)) (.int bound)]
 
-/-- `processHints` -/
+/-- the lookback delta of the engine the router builds (`const lookbackDeltaMs`) -/
+def lookbackMs : Int := 300000
+
+/-- `processHints` (after `fix: a stepped range query hands the engine the last sample of every step bucket with its own time
+    …` and `fix: the range-vector sample filter is not applied to the instant selector of a sub-query`) -/
 def processHints (h : Hints) (q : Sel) : Sel :=
   let q1 :=
-    if instantFns.contains h.func || h.func == "" then
+    if (instantFns.contains h.func || h.func == "") && h.rangeMs == 0 && lookbackMs % h.stepMs == 0 then
       (Sel.mk [] false
         [.raw "fingerprint", simpleCol "argMax(spls.value, spls.timestamp_ms)" "value",
-         simpleCol ("intDiv(spls.timestamp_ms - " ++ toString h.startMs ++ " + " ++ toString h.stepMs ++ " - 1, " ++
-           toString h.stepMs ++ ") * " ++ toString h.stepMs ++ " + " ++ toString h.startMs) "timestamp_ms"]
-        (some (.withRef (.named "spls"))) [] none none [.raw "timestamp_ms", .raw "fingerprint"] none
-        [.orderBy (.raw "fingerprint") .asc, .orderBy (.raw "timestamp_ms") .asc] none).with_ [(.named "spls", q)]
+         simpleCol "max(spls.timestamp_ms)" "last_ms"]
+        (some (.withRef (.named "spls"))) [] none none
+        [.raw ("intDiv(spls.timestamp_ms - " ++ toString h.startMs ++ " + " ++ toString h.stepMs ++ " - 1, " ++
+           toString h.stepMs ++ ")"), .raw "fingerprint"] none
+        [.orderBy (.raw "fingerprint") .asc, .orderBy (.raw "last_ms") .asc] none).with_ [(.named "spls", q)]
     else q
-  if rangeFns.contains h.func && decide (h.stepMs > h.rangeMs) then
+  if rangeFns.contains h.func && decide (h.rangeMs > 0) && decide (h.stepMs > h.rangeMs) then
     -- after `fix: the range-vector sample filter follows the windows the engine evaluates`
     q1.andWhere [le (.raw ("(timestamp_ms - " ++ toString h.startMs ++ ") % " ++ toString h.stepMs)) (.int h.rangeMs)]
   else q1
 
 /-- **`TranspileLabelMatchers`** -/
-def transpileRaw (c : Ctx) (h : Hints) (ms : List Matcher) : Sel :=
-  let q := withFp c ms "samples.fingerprint" (initRaw c)
+def transpileRaw (c : Ctx) (h : Hints) (ms : List Matcher) (req : List Bool) : Sel :=
+  let q := withFp c ms req "samples.fingerprint" (initRaw c)
   if h.stepMs = 0 then q else processHints h q
 
 /-- `InitDownsamplePlanner.Process` -/
@@ -102,7 +120,7 @@ def downHints (h : Hints) (q : Sel) : Sel :=
         (simpleCol ("intDiv(samples.timestamp_ns, " ++ toString h.stepMs ++ " * 1000000) * " ++ toString h.stepMs ++ " - 1") "timestamp_ms"))
 
 /-- **`GetLabelMatchersDownsampleRequest`** -/
-def transpileDown (c : Ctx) (m15 : String) (h : Hints) (ms : List Matcher) : Sel :=
-  downHints h (withFp c ms "fingerprint" (initDown c m15))
+def transpileDown (c : Ctx) (m15 : String) (h : Hints) (ms : List Matcher) (req : List Bool) : Sel :=
+  downHints h (withFp c ms req "fingerprint" (initDown c m15))
 
 end Qryn.Prom
